@@ -443,8 +443,11 @@ func (nfs *Nfs) doCreate(dfh nfstypes.Nfs_fh3, name nfstypes.Filename3, kind nfs
 		dip.WriteInode(op.Atxn)
 	}
 	if kind == nfstypes.NF3LNK {
-		_, ok := ip.Write(op.Atxn, uint64(0), uint64(len(data)), data)
-		if !ok {
+		// Write reports success as soon as it has written something: when
+		// the disk fills up in the middle of the target it returns a short
+		// count.  A link to a prefix of its target must not be created.
+		n, ok := ip.Write(op.Atxn, uint64(0), uint64(len(data)), data)
+		if !ok || n != uint64(len(data)) {
 			nfs.doDecLink(op, ip)
 			err = nfstypes.NFS3ERR_NOSPC
 			return
